@@ -264,12 +264,14 @@ Theorem C08_empty_deletes_two_pinned_refuted :
 Proof. exact empty_range_deletes_two_pinned. Qed.
 Print Assumptions C08_empty_deletes_two_pinned_refuted.
 
-(* Per text object (failed_noop m k: whenever the text-object function m reports
-   failure - for any document, cursor, count - operator k raises nothing and
-   leaves text, cursor, clipboard and registers alone): d, c, y, their
-   register variants and the case operators, for every text object whose
-   failure is an empty exclusive object. *)
-Theorem C08_failed_motion_noop : forall k, cut_or_case k ->
+(* At the level of the operator BODIES (failed_noop m k: whenever the
+   text-object function m reports failure - for any document, cursor, count -
+   the body of operator k raises nothing and leaves text, cursor, clipboard
+   and registers alone): d, c, y, their register variants and the case
+   operators, for every text object whose failure is an empty exclusive
+   object.  The statement for ALL operators and text objects is
+   C08_failed_motion_noop below (at the wrapper, where /repo decides it). *)
+Theorem C08_failed_motion_noop_bodies : forall k, cut_or_case k ->
   (forall ch, failed_noop (T_f ch) k /\ failed_noop (T_F ch) k /\
               failed_noop (T_t ch) k /\ failed_noop (T_T ch) k) /\
   (forall rev has ch bw, failed_noop (T_repeat rev has ch bw) k) /\
@@ -293,32 +295,8 @@ Proof.
   split; [intros; apply fam_word; exact Hk|]. split; [apply fam_ap; exact Hk|].
   split; [intros; apply fam_ci; exact Hk|apply fam_gm; exact Hk].
 Qed.
-Print Assumptions C08_failed_motion_noop.
+Print Assumptions C08_failed_motion_noop_bodies.
 
-(* Still false in /repo (known findings): the inclusive defaults of e E ge gE
-   g_ (one character goes / changes case), j and k at the buffer boundary
-   (the cursor line goes), and the line operators > < gq on any failed motion
-   (the cursor line is indented / reshaped). *)
-Theorem C08_failed_motion_noop_refuted :
-  ~ failed_noop (T_e false) del /\ ~ failed_noop (T_ge false) del /\ ~ failed_noop T_g_ del /\
-  ~ failed_noop T_j del /\ ~ failed_noop T_k del /\
-  ~ failed_noop (T_F 120) OpIndent /\ ~ failed_noop (T_F 120) OpUnindent /\
-  ~ failed_noop (T_F 120) OpReshape /\
-  ~ failed_noop (T_e false) (OpTransform 3) /\ ~ failed_noop T_j (OpTransform 3).
-Proof.
-  repeat apply conj.
-  - exact word_end_failed_refuted.
-  - exact word_end_backward_failed_refuted.
-  - exact last_non_blank_on_blank_line_refuted.
-  - exact down_on_last_line_refuted.
-  - exact up_on_first_line_refuted.
-  - exact failed_find_indent_refuted.
-  - exact failed_find_unindent_refuted.
-  - exact failed_find_reshape_refuted.
-  - exact failed_word_end_transform_refuted.
-  - exact failed_down_transform_refuted.
-Qed.
-Print Assumptions C08_failed_motion_noop_refuted.
 
 (* ------------------------------------------------------------------ *)
 (* Linewise objects without range hypotheses (C02's coordinate lemmas): with
@@ -376,13 +354,14 @@ Theorem C08_applied_operator_clears : forall p s m status s',
 Proof. exact applied_operator_clears. Qed.
 Print Assumptions C08_applied_operator_clears.
 
-(* the operator is applied to the text object of count (count before the
-   operator) x (count before the motion) - digits 0 included, see
-   C08_typed_digits - and to "no count" when none was typed *)
+(* an object that is neither failed nor empty reaches the operator body, with
+   count (count before the operator) x (count before the motion) - digits 0
+   included, see C08_typed_digits - and "no count" when none was typed *)
 Theorem C08_operator_motion_step : forall s k keys m o failed,
   ks_op s = Some (k, keys) ->
   let '(n, hc) := pending_count (ks_oparg s) (ks_arg s) in
   text_object m (bdoc (vbuf (ks_vst s))) n hc = TO o failed ->
+  cancelled o failed = false ->
   key_step s (KM m) =
   (let '(status, st1) := run_op k (ks_vst s) o (mkev n keys) in
    (status, mkks (if (status =? 0) && negb (vins st1) then with_buf st1 (fix_vi_cursor (vbuf st1)) else st1)
@@ -399,31 +378,61 @@ Proof. exact run_digits. Qed.
 Print Assumptions C08_typed_digits.
 
 (* ------------------------------------------------------------------ *)
-(* PROPOSAL (fixes/C08-failed-motion-minimal.patch; the patched
-   variant key_step_gen true, tied to a patched tree by harness/c08_patched.py):
-   a failed text object - or an exclusive object with equal ends - cancels
-   EVERY operator (d c y, register variants, case operators, > < gq): text,
-   cursor, clipboard, registers and mode stay as they were, and the patch
-   changes nothing for an object that is neither. *)
-Theorem C08_failed_motion_noop_patched : forall s k keys m o,
+(* "If the motion fails or spans nothing, the operator changes nothing" -
+   for EVERY operator (d c y, register variants, case operators, > < gq) and
+   EVERY text object, any pending counts: when the text-object function
+   reports failure (for e E ge gE g_ j k: returns None; for the others: an
+   exclusive object with equal ends) the wrapper cancels the operator: text,
+   cursor, clipboard, registers and input mode stay as they were, and no
+   count or operator stays pending (fix ced036e). *)
+Theorem C08_failed_motion_noop : forall s k keys m o,
   ks_op s = Some (k, keys) ->
   let '(n, hc) := pending_count (ks_oparg s) (ks_arg s) in
   text_object m (bdoc (vbuf (ks_vst s))) n hc = TO o true ->
-  key_step_gen true s (KM m) = (0, cleared s).
+  key_step s (KM m) = (0, cleared s).
 Proof.
-  intros s k keys m o Hop. pose proof (patched_cancels s k keys m o true Hop) as H.
+  intros s k keys m o Hop. pose proof (wrapper_cancels s k keys m o true Hop) as H.
   destruct (pending_count (ks_oparg s) (ks_arg s)) as [n hc]. intros Ht. apply H; [exact Ht|reflexivity].
 Qed.
-Print Assumptions C08_failed_motion_noop_patched.
+Print Assumptions C08_failed_motion_noop.
 
-Theorem C08_patch_preserves : forall s k keys m o failed,
+(* ... and likewise every exclusive object with equal ends ("spans nothing"),
+   whatever the failed flag says *)
+Theorem C08_empty_exclusive_cancels : forall s k keys m o failed,
+  ks_op s = Some (k, keys) ->
+  let '(n, hc) := pending_count (ks_oparg s) (ks_arg s) in
+  text_object m (bdoc (vbuf (ks_vst s))) n hc = TO o failed ->
+  ttype o = EXCL -> tstart o = tend o ->
+  key_step s (KM m) = (0, cleared s).
+Proof.
+  intros s k keys m o failed Hop. pose proof (wrapper_cancels s k keys m o failed Hop) as H.
+  destruct (pending_count (ks_oparg s) (ks_arg s)) as [n hc]. intros Ht Hty Heq. apply H; [exact Ht|].
+  unfold cancelled. rewrite Hty, Heq, Z.eqb_refl. cbn [is_excl andb]. apply orb_true_r.
+Qed.
+Print Assumptions C08_empty_exclusive_cancels.
+
+(* the fix changed nothing for objects that are neither failed nor empty *)
+Theorem C08_wrapper_same_as_pinned : forall s k keys m o failed,
   ks_op s = Some (k, keys) ->
   let '(n, hc) := pending_count (ks_oparg s) (ks_arg s) in
   text_object m (bdoc (vbuf (ks_vst s))) n hc = TO o failed ->
   cancelled o failed = false ->
-  key_step_gen true s (KM m) = key_step_gen false s (KM m).
-Proof. exact patched_same. Qed.
-Print Assumptions C08_patch_preserves.
+  key_step s (KM m) = key_step_pinned s (KM m).
+Proof. exact wrapper_same_as_pinned. Qed.
+Print Assumptions C08_wrapper_same_as_pinned.
+
+(* ... which the wrapper of the commit before did not satisfy: 'ab' cursor 1
+   de deleted 'b', 'ab' dj deleted the line, 'abc def' cursor 4 >Fx indented it *)
+Theorem C08_failed_motion_noop_pinned_refuted :
+  (text_object (T_e false) (mkdoc [97; 98] 1) 1 false = TO (mkto 0 0 INCL) true /\
+   btext (vbuf (ks_vst (snd (key_step_pinned (pend [97; 98] 1 (OpDelete true false) [100]) (KM (T_e false)))))) = [97]) /\
+  (text_object T_j (mkdoc [97; 98] 0) 1 false = TO (mkto 0 0 LINEW) true /\
+   btext (vbuf (ks_vst (snd (key_step_pinned (pend [97; 98] 0 (OpDelete true false) [100]) (KM T_j))))) = []) /\
+  (text_object (T_F 120) (mkdoc [97; 98; 99; 32; 100; 101; 102] 4) 1 false = TO (mk1 0) true /\
+   btext (vbuf (ks_vst (snd (key_step_pinned (pend [97; 98; 99; 32; 100; 101; 102] 4 OpIndent [62]) (KM (T_F 120))))))
+   = [32; 32; 32; 32; 97; 98; 99; 32; 100; 101; 102]).
+Proof. exact failed_motion_pinned_not_noop. Qed.
+Print Assumptions C08_failed_motion_noop_pinned_refuted.
 
 (* ------------------------------------------------------------------ *)
 (* The text-object functions return the intended span (core subset; from
